@@ -39,6 +39,19 @@ def make_scratch(root, edits):
                         txt = _ast.unparse(_ast.parse(open(pth).read())) + "\n"
                         open(pth, "w").write(txt)
             continue
+        if e[0] in TREE_TRANSFORMS:
+            import ast as _ast
+            srcs = {}
+            for pkg in PACKAGES:
+                for fn in os.listdir(os.path.join(d, pkg)):
+                    if fn.endswith(".py"):
+                        pth = os.path.join(d, pkg, fn)
+                        srcs[pth] = _ast.parse(open(pth).read())
+            TREE_TRANSFORMS[e[0]](srcs)
+            for pth, tree in srcs.items():
+                _ast.fix_missing_locations(tree)
+                open(pth, "w").write(_ast.unparse(tree) + "\n")
+            continue
         if e[0] == "@rename_locals":
             ok = rename_locals(os.path.join(d, e[1]), e[2])
             if not ok:
@@ -55,6 +68,78 @@ def make_scratch(root, edits):
         with open(p, "w") as f:
             f.write(s.replace(old, new))
     return d
+
+
+def _t_kwargs_calls(srcs):
+    """every call `f(a, b)` to a module-level function of the same file (or `utils.f` / `sempler.utils.f`) is re-spelled with
+    keyword arguments in reversed order: f(y=b, x=a).  Python evaluates the arguments in another order, which matters only
+    for arguments with side effects: calls with a call among the arguments are left alone."""
+    import ast
+    defs = {}
+    for pth, tree in srcs.items():
+        defs[pth] = {n.name: n for n in tree.body if isinstance(n, ast.FunctionDef)}
+    utils = next((v for k, v in defs.items() if k.endswith("sempler/utils.py")), {})
+
+    class R(ast.NodeTransformer):
+        def __init__(self, local):
+            self.local = local
+
+        def visit_Call(self, node):
+            self.generic_visit(node)
+            fd = None
+            if isinstance(node.func, ast.Name):
+                fd = self.local.get(node.func.id)
+            elif isinstance(node.func, ast.Attribute) and ast.unparse(node.func.value) in ("utils", "sempler.utils"):
+                fd = utils.get(node.func.attr)
+            if fd is None or fd.args.vararg or fd.args.kwarg or fd.args.posonlyargs:
+                return node
+            if any(isinstance(a, ast.Starred) for a in node.args) or any(k.arg is None for k in node.keywords):
+                return node
+            if any(isinstance(x, (ast.Call, ast.Lambda, ast.NamedExpr)) for a in list(node.args) + [k.value for k in node.keywords] for x in ast.walk(a)):
+                return node
+            names = [a.arg for a in fd.args.args]
+            if len(node.args) > len(names):
+                return node
+            kws = [ast.keyword(arg=n_, value=a) for n_, a in zip(names, node.args)] + list(node.keywords)
+            node.args = []
+            node.keywords = list(reversed(kws))
+            return node
+    for pth, tree in srcs.items():
+        R(defs[pth]).visit(tree)
+
+
+def _t_strip_docs_annotate(srcs):
+    """docstrings removed, every parameter annotated with `object`, every function given a return annotation"""
+    import ast
+    for tree in srcs.values():
+        for n in ast.walk(tree):
+            if isinstance(n, (ast.FunctionDef, ast.ClassDef, ast.Module)):
+                b = n.body
+                if b and isinstance(b[0], ast.Expr) and isinstance(b[0].value, ast.Constant) and isinstance(b[0].value.value, str) and len(b) > 1:
+                    n.body = b[1:]
+            if isinstance(n, ast.FunctionDef):
+                for a in n.args.args + n.args.kwonlyargs:
+                    if a.arg not in ("self", "cls"):
+                        a.annotation = ast.Name("object", ast.Load())
+                n.returns = ast.Name("object", ast.Load())
+
+
+def _t_logging(srcs):
+    """`import logging` + a module logger; every function starts with a logger.debug call and a `del`-free no-op statement"""
+    import ast
+    for tree in srcs.values():
+        k = 0
+        while k < len(tree.body) and (isinstance(tree.body[k], ast.Expr) and isinstance(getattr(tree.body[k], "value", None), ast.Constant)
+                                       or isinstance(tree.body[k], ast.ImportFrom) and tree.body[k].module == "__future__"):
+            k += 1
+        tree.body[k:k] = ast.parse("import logging\n_verif_logger = logging.getLogger(__name__)\n").body
+        for n in ast.walk(tree):
+            if isinstance(n, ast.FunctionDef):
+                k = 1 if (n.body and isinstance(n.body[0], ast.Expr) and isinstance(n.body[0].value, ast.Constant) and isinstance(n.body[0].value.value, str)) else 0
+                n.body[k:k] = ast.parse("_verif_logger.debug('entering %%s', %r)\n" % n.name).body
+
+
+TREE_TRANSFORMS = {"@kwargs_calls": _t_kwargs_calls, "@strip_docs_annotate": _t_strip_docs_annotate, "@logging": _t_logging}
 
 
 def rename_locals(path, qual):
@@ -115,7 +200,7 @@ def run_variant(v):
     try:
         import ast
         for e in v["edits"]:
-            if e[0] == "@unparse_all":
+            if e[0] == "@unparse_all" or e[0] in TREE_TRANSFORMS:
                 continue
             rel = e[1] if e[0] == "@rename_locals" else e[0]
             ast.parse(open(os.path.join(d, rel)).read())
